@@ -47,8 +47,18 @@ def run(rep, facts):
         if how.startswith("ref:ref:mut") or how == "write" or how.startswith("arg:move") or how.startswith("read:move"):
             mutating.setdefault(b.path, (b, []))[1].append((bi, how, sp))
     nmut = 0
+    # a private accessor introduced later (`fn params_mut(&mut self) -> &mut HashMap<..> { &mut self.params }`) stands for the field
+    accessors = set()
+    for path_, (b, sites) in list(mutating.items()):
+        if facts.is_new_helper(b.npath):
+            r0 = ir.Resolver(b)
+            rets = [ir.peel(r0.operand({"copy": {"l": 0}}, (bi, -1))) for bi, blk in enumerate(b.blocks) if blk["t"]["k"] == "return"]
+            if rets and all(x[0] == 'field' and x[2] == 'params' and ir.peel(x[1])[0] == 'param' for x in rets):
+                accessors.add(b.npath)
+                for (cb, cbi, t_, nm_) in F.calls_to(facts, lambda n, _p=b.npath: n == _p):
+                    mutating.setdefault(cb.path, (cb, []))
     for path_, (b, sites) in sorted(mutating.items()):
-        if b.npath == REQ + "::new" or "Clone" in b.npath or "fmt" in b.npath or "PartialEq" in b.npath:
+        if b.npath == REQ + "::new" or "Clone" in b.npath or "fmt" in b.npath or "PartialEq" in b.npath or b.npath in accessors:
             continue
         g = ieg.IEG(facts, b, inline_filter=lambda x: False)
         for n in g.all_nodes():
@@ -56,7 +66,7 @@ def run(rep, facts):
             if t["k"] != "call" or n.noise() or not t["args"]:
                 continue
             recv = ir.peel(g.arg(n, 0))
-            if not (recv[0] == 'field' and recv[2] == 'params'):
+            if not ((recv[0] == 'field' and recv[2] == 'params') or (recv[0] == 'call' and recv[1] in accessors)):
                 continue
             name = g.callee(n) or ""
             m = name.split("::")[-1]
